@@ -113,6 +113,10 @@ func (w *wrapStore) GetWorkloads(ctx context.Context, ids []string) ([]*types.Wo
 	return ws, err
 }
 
+// hangs counts calls that did not finish before the deadline; their goroutines (and workload
+// locks) are leaked, so the run stops early after a few of them: the violation is established.
+var hangs int
+
 var (
 	cal  *calcium.Calcium
 	base store.Store
@@ -193,11 +197,12 @@ func runSend(k *kase) {
 		}
 		close(finished)
 	}()
-	deadline := 5 * time.Second
+	deadline := time.Duration(hx.EnvInt("VERIF_SEND_DEADLINE_MS", 20000)) * time.Millisecond
 	select {
 	case <-finished:
 	case <-time.After(deadline):
 		k.Impl = map[string]any{"finished": false}
+		hangs++
 		return
 	}
 	sort.Slice(results, func(i, j int) bool {
@@ -218,7 +223,7 @@ func runSend(k *kase) {
 
 func run(k *kase) {
 	k.Chunk = types.SendLargeFileChunkSize
-	kind, msg := hx.Guard(30*time.Second, func() {
+	kind, msg := hx.Guard(60*time.Second, func() {
 		switch k.Op {
 		case "chunks":
 			file := types.LinuxFile{Filename: k.Dst, Content: content(k), UID: k.UID, GID: k.GID, Mode: k.Mode}
@@ -350,7 +355,7 @@ func TestGen(t *testing.T) {
 		run(k)
 		out.Emit(k)
 	}
-	for i := 0; out.N < n; i++ {
+	for i := 0; out.N < n && hangs < 3; i++ {
 		k := genCase(r, i)
 		run(k)
 		out.Emit(k)
